@@ -1,4 +1,23 @@
+mod c01;
+mod c02;
+mod c03;
+mod c04;
+mod c05;
+mod c06;
+mod c07;
+mod c08;
 mod c09;
+mod c10;
+mod c11;
+mod c12;
+mod c13;
+mod c14;
+mod c15;
+mod c16;
+mod c17;
+mod c18;
+mod c19;
+mod c20;
 mod common;
 
 use common::*;
@@ -6,14 +25,52 @@ use std::io::Write;
 
 fn generate(prop: &str, tier: &str, rng: &mut Rng) -> Vec<String> {
     match prop {
+        "C01" => c01::generate(tier, rng),
+        "C02" => c02::generate(tier, rng),
+        "C03" => c03::generate(tier, rng),
+        "C04" => c04::generate(tier, rng),
+        "C05" => c05::generate(tier, rng),
+        "C06" => c06::generate(tier, rng),
+        "C07" => c07::generate(tier, rng),
+        "C08" => c08::generate(tier, rng),
         "C09" => c09::generate(tier, rng),
+        "C10" => c10::generate(tier, rng),
+        "C11" => c11::generate(tier, rng),
+        "C12" => c12::generate(tier, rng),
+        "C13" => c13::generate(tier, rng),
+        "C14" => c14::generate(tier, rng),
+        "C15" => c15::generate(tier, rng),
+        "C16" => c16::generate(tier, rng),
+        "C17" => c17::generate(tier, rng),
+        "C18" => c18::generate(tier, rng),
+        "C19" => c19::generate(tier, rng),
+        "C20" => c20::generate(tier, rng),
         _ => panic!("unknown property {prop}"),
     }
 }
 
 fn execute(prop: &str, case: &str) -> String {
     match prop {
+        "C01" => guarded(|| c01::execute(case)),
+        "C02" => guarded(|| c02::execute(case)),
+        "C03" => guarded(|| c03::execute(case)),
+        "C04" => guarded(|| c04::execute(case)),
+        "C05" => guarded(|| c05::execute(case)),
+        "C06" => guarded(|| c06::execute(case)),
+        "C07" => guarded(|| c07::execute(case)),
+        "C08" => guarded(|| c08::execute(case)),
         "C09" => guarded(|| c09::execute(case)),
+        "C10" => guarded(|| c10::execute(case)),
+        "C11" => guarded(|| c11::execute(case)),
+        "C12" => guarded(|| c12::execute(case)),
+        "C13" => guarded(|| c13::execute(case)),
+        "C14" => guarded(|| c14::execute(case)),
+        "C15" => guarded(|| c15::execute(case)),
+        "C16" => guarded(|| c16::execute(case)),
+        "C17" => guarded(|| c17::execute(case)),
+        "C18" => guarded(|| c18::execute(case)),
+        "C19" => guarded(|| c19::execute(case)),
+        "C20" => guarded(|| c20::execute(case)),
         _ => "unknown-property".into(),
     }
 }
